@@ -1,6 +1,8 @@
 package main
 
 import (
+	"sort"
+	"go/types"
 	"go/token"
 	"strings"
 
@@ -31,6 +33,7 @@ func runC16(c *Ctx) {
 
 	// ---- K1: lock pairing on all paths ---------------------------------------
 	locks := c.LockPairing("C16.K1-lock-pairing", pkg, nil)
+	mutexHoldersByPointer(c, "C16.K1-lock-pairing", pkg)
 	c.Floor("C16.K1-lock-pairing", 4)
 	// the receiver republishes through the senders: a lock leaked there blocks every later Direct before it can see
 	// its context or the receiver's shutdown
@@ -652,4 +655,100 @@ func receiverCloseSignals(c *Ctx, rule string) {
 	ok, path := pathsFromPass(mark, isCloseDone)
 	c.Check(ok, rule, cl.Name+" › close(done) on every path that marks the receiver closed", mark.Pos(),
 		"once marked closed, every path through Close closes the done channel: a pending or later Next returns", "Close can mark the receiver closed and return without closing the done channel ("+path+"): Next never returns, so whoever waits for the consumer of Next (the subscriber's Close) hangs")
+}
+
+// mutexHoldersByPointer: a type that holds a mutex is used through a pointer: a method with a value receiver works on
+// a copy — it locks the copy's mutex (possibly copied while held: never unlocked) and leaves the real one alone, and
+// what it writes to the struct's fields is lost. Shared by C16 (announce), C08 and C15 (dagsync).
+func mutexHoldersByPointer(c *Ctx, rule, pkg string) {
+	nT := 0
+	if p := c.pkg(pkg); p != nil {
+		sc := p.Types.Scope()
+		for _, name := range sc.Names() {
+			tn, ok := sc.Lookup(name).(*types.TypeName)
+			if !ok {
+				continue
+			}
+			named, ok := tn.Type().(*types.Named)
+			if !ok {
+				continue
+			}
+			st, ok := named.Underlying().(*types.Struct)
+			if !ok {
+				continue
+			}
+			holds := false
+			for i := 0; i < st.NumFields(); i++ {
+				if t := st.Field(i).Type().String(); t == "sync.Mutex" || t == "sync.RWMutex" {
+					holds = true
+				}
+			}
+			if !holds {
+				continue
+			}
+			nT++
+			var byValue []string
+			for i := 0; i < named.NumMethods(); i++ {
+				m := named.Method(i)
+				if _, isPtr := m.Type().(*types.Signature).Recv().Type().(*types.Pointer); !isPtr {
+					byValue = append(byValue, m.Name())
+				}
+			}
+			c.Check(len(byValue) == 0, rule, pkg+"."+canonType(tn)+" › methods work on the one instance", tn.Pos(), "every method of the mutex-holding type has a pointer receiver", "method(s) "+strings.Join(byValue, ", ")+" take the receiver by value: each call copies the struct with its mutex and locks the copy — the real lock is not taken (or, copied while held, the copy is locked for good)")
+		}
+	}
+	if nT == 0 {
+		c.Unk(rule, pkg+" › mutex-holding types", token.NoPos, "none found")
+	}
+}
+
+// closeReleasesWhatWasCreated: every function-typed field of the receiver that Close calls (a cancel function of
+// something the constructor created: the watcher's context, a pubsub instance of its own) is given a value
+// somewhere in the package — a field Close tests for nil and that nothing ever sets makes that release dead code:
+// Close returns, and what the receiver created (goroutines, a topic joined) stays. Shared by C15 and C16.
+func closeReleasesWhatWasCreated(c *Ctx, rule string) {
+	cl := c.Func("announce", "Receiver.Close")
+	if cl == nil {
+		c.Unk(rule, "announce.(*Receiver).Close", token.NoPos, "not found")
+		return
+	}
+	called := map[string]token.Pos{}
+	for _, f := range c.Funcs("announce") {
+		if f.SSA != cl.SSA && c.routineOf(f.SSA) != cl.SSA {
+			continue
+		}
+		for _, cs := range c.Calls(f.SSA, Op("dyncall", "", Field("", Any()))) {
+			if fx := strip(cs.X.Args[0]); fx != nil && fx.Op == "field" && fieldOwner(fx) == "Receiver" {
+				called[canonName(fx.Name)] = cs.In.Pos()
+			}
+		}
+	}
+	set := map[string]bool{}
+	for _, f := range c.Funcs("announce") {
+		instrsDeep(f.SSA, func(_ *ssa.Function, in ssa.Instruction) {
+			st, ok := in.(*ssa.Store)
+			if !ok {
+				return
+			}
+			a := c.E(st.Addr)
+			if a.Op != "field" || fieldOwner(a) != "Receiver" {
+				return
+			}
+			if k, isC := st.Val.(*ssa.Const); isC && k.Value == nil {
+				return
+			}
+			set[canonName(a.Name)] = true
+		})
+	}
+	var names []string
+	for n := range called {
+		names = append(names, n)
+	}
+	sort.Strings(names)
+	for _, n := range names {
+		c.Check(set[n], rule, "announce.Receiver."+n+" › called by Close, set by the constructor", called[n], "the release function Close calls is stored when what it releases is created", "Close calls r."+n+" only if it is set, and nothing in the package sets it: what the constructor created for it is never released, although Close returns nil")
+	}
+	if len(names) == 0 {
+		c.Unk(rule, "announce.(*Receiver).Close", cl.SSA.Pos(), "Close calls no function-typed field of the receiver")
+	}
 }
